@@ -210,12 +210,13 @@ class DataTransformBlock(ConfigBlock):
 
     @property
     def tree(self):
-        if not self.steps and not self.termination:
-            # an empty block (`output { }`) holds no data_transform at all
-            return Tree(self.__name__, [])
-        return Tree(
-            self.__name__,
-            [
+        self._add_data_transform()
+        return Tree(self.__name__, self._children)
+
+    def _add_data_transform(self):
+        # an empty block (`output { }`) holds no data_transform at all, it is added with the first statement
+        if (self.steps or self.termination) and not self._children:
+            self._children.append(
                 Tree(
                     "data_transform",
                     [
@@ -223,12 +224,13 @@ class DataTransformBlock(ConfigBlock):
                         Tree("termination", self.termination),
                     ],
                 )
-            ],
-        )
+            )
 
     def __init__(self, steps=None):
         self.steps = []
         self.termination = []
+        # one children list for the life of the block, a parent block shares it (see `set_config_block`)
+        self._children = []
 
         steps = steps or []
         for option in steps:
@@ -248,12 +250,14 @@ class DataTransformBlock(ConfigBlock):
         if value is not None:
             val.append(Tree("string", [Token("STRING", value_to_string(value))]))
         self.steps.append(Tree(option, val))
+        self._add_data_transform()
 
     def add_termination(self, option, value):
         val = []
         if value is not None:
             val.append(Tree("string", [Token("STRING", value_to_string(value))]))
         self.termination.append(Tree(option, val))
+        self._add_data_transform()
 
 
 class HttpStagerBlock(ConfigBlock):
